@@ -15,136 +15,16 @@
 //!           cf: choose_filtered with predicate "id is odd" (id or `_`)
 //!           into_replicas_ordered() (or `panic`)   ep: get_token_endpoints (or `x`)
 //!           np: into_iter() on a ClusterState built from the same peers with NO keyspaces
-use scylla::cluster::metadata::Strategy;
-use scylla::cluster::verif_state::{VerifPeer, cluster_state, keyspace};
-use scylla::cluster::{ClusterState, NodeAddr};
+use scylla::cluster::ClusterState;
 use scylla::frame::response::result::TableSpec;
 use scylla::routing::Token;
 use scylla::routing::verif_locator as vloc;
-use std::collections::{BTreeSet, HashMap};
-use std::net::SocketAddr;
 use std::panic::AssertUnwindSafe;
-use uuid::Uuid;
 use vh::*;
 
-const ABSENT_DC: u64 = 9;
-
-#[derive(Clone, Debug, PartialEq)]
-enum Strat {
-    Simple(u64),
-    Nts(Vec<(u64, u64)>),
-    Local,
-    Other,
-}
-
-#[derive(Clone, Debug)]
-struct Topo {
-    nodes: Vec<(u64, Option<u64>, Option<u64>)>,
-    ring: Vec<(i64, u64)>,
-}
-
-fn opt_s(o: &Option<u64>) -> String {
-    match o {
-        Some(v) => hex_u(*v as u128),
-        None => "_".into(),
-    }
-}
-fn strat_s(s: &Strat) -> String {
-    match s {
-        Strat::Simple(rf) => format!("S{}", hex_u(*rf as u128)),
-        Strat::Nts(m) => format!(
-            "N{}",
-            m.iter().map(|(d, rf)| format!("{}={}", hex_u(*d as u128), hex_u(*rf as u128))).collect::<Vec<_>>().join("+")
-        ),
-        Strat::Local => "L".into(),
-        Strat::Other => "O".into(),
-    }
-}
-fn parse_strat(s: &str) -> Strat {
-    let h = |x: &str| u64::from_str_radix(x, 16).unwrap();
-    match &s[..1] {
-        "S" => Strat::Simple(h(&s[1..])),
-        "N" => Strat::Nts(
-            s[1..]
-                .split('+')
-                .filter(|e| !e.is_empty())
-                .map(|e| {
-                    let (d, rf) = e.split_once('=').unwrap();
-                    (h(d), h(rf))
-                })
-                .collect(),
-        ),
-        "L" => Strat::Local,
-        _ => Strat::Other,
-    }
-}
-fn to_strategy(s: &Strat) -> Strategy {
-    match s {
-        Strat::Simple(rf) => Strategy::SimpleStrategy { replication_factor: *rf as usize },
-        Strat::Nts(m) => Strategy::NetworkTopologyStrategy {
-            datacenter_repfactors: m.iter().map(|(d, rf)| (format!("dc{}", d), *rf as usize)).collect(),
-        },
-        Strat::Local => Strategy::LocalStrategy,
-        Strat::Other => Strategy::Other { name: "org.example.Custom".into(), data: HashMap::new() },
-    }
-}
-fn topo_s(t: &Topo) -> (String, String) {
-    let nodes = t.nodes.iter().map(|(i, d, r)| format!("{}.{}.{}", hex_u(*i as u128), opt_s(d), opt_s(r))).collect::<Vec<_>>().join(",");
-    let ring = if t.ring.is_empty() {
-        "-".to_string()
-    } else {
-        t.ring.iter().map(|(tk, i)| format!("{}.{}", hex_i(*tk as i128), hex_u(*i as u128))).collect::<Vec<_>>().join(",")
-    };
-    (nodes, ring)
-}
-fn parse_i(s: &str) -> i64 {
-    if let Some(r) = s.strip_prefix('-') {
-        (-(i128::from_str_radix(r, 16).unwrap())) as i64
-    } else {
-        i128::from_str_radix(s, 16).unwrap() as i64
-    }
-}
-fn parse_topo(nodes: &str, ring: &str) -> Topo {
-    let h = |x: &str| u64::from_str_radix(x, 16).unwrap();
-    let o = |x: &str| if x == "_" { None } else { Some(u64::from_str_radix(x, 16).unwrap()) };
-    let nodes = nodes
-        .split(',')
-        .filter(|e| !e.is_empty() && *e != "-")
-        .map(|e| {
-            let f: Vec<&str> = e.split('.').collect();
-            (h(f[0]), o(f[1]), o(f[2]))
-        })
-        .collect();
-    let ring = if ring == "-" {
-        vec![]
-    } else {
-        ring.split(',')
-            .map(|e| {
-                let (t, i) = e.rsplit_once('.').unwrap();
-                (parse_i(t), h(i))
-            })
-            .collect()
-    };
-    Topo { nodes, ring }
-}
-
-fn build(rt: &tokio::runtime::Runtime, t: &Topo, pre: &[Strat]) -> ClusterState {
-    // peers in node order; each peer's tokens in ring-list order (the ring list is generated
-    // peer by peer, so this reproduces it exactly)
-    let peers: Vec<VerifPeer> = t
-        .nodes
-        .iter()
-        .map(|(id, dc, rack)| VerifPeer {
-            host_id: Uuid::from_u128(*id as u128),
-            address: NodeAddr::Translatable(SocketAddr::from(([127, 0, 0, 1], *id as u16))),
-            datacenter: dc.map(|d| format!("dc{}", d)),
-            rack: rack.map(|r| format!("r{}", r)),
-            tokens: t.ring.iter().filter(|(_, n)| n == id).map(|(tk, _)| Token::new(*tk)).collect(),
-        })
-        .collect();
-    let keyspaces = pre.iter().enumerate().map(|(i, s)| (format!("ks{}", i), keyspace(to_strategy(s), false))).collect();
-    rt.block_on(cluster_state(peers, keyspaces))
-}
+#[path = "../ring_util.rs"]
+mod ru;
+use ru::*;
 
 /// a 64-bit draw that makes `random_range(0..len)` return k (checked by `calibrated`)
 fn draw_for(k: usize, len: usize) -> u64 {
@@ -237,140 +117,6 @@ fn run_case(cx: &mut Ctx, case: &str) -> String {
     }
 }
 
-// ---------------------------------------------------------------- generators
-
-fn gen_topo(r: &mut Rng, dup_tokens: bool) -> Topo {
-    let n = match r.below(10) {
-        0..=2 => r.range(1, 4),
-        3..=6 => r.range(5, 8),
-        _ => r.range(9, 12),
-    } as usize;
-    let ndc = r.range(1, 3);
-    let racks_per_dc: Vec<u64> = (0..ndc).map(|_| r.range(1, 4)).collect();
-    let some_dcless = r.chance(1, 8);
-    let some_rackless = r.chance(1, 6);
-    let mut nodes = Vec::new();
-    for i in 0..n {
-        let dc = if some_dcless && r.chance(1, 4) { None } else { Some(r.below(ndc)) };
-        let rack = if some_rackless && r.chance(1, 3) {
-            None
-        } else {
-            Some(r.below(racks_per_dc[dc.unwrap_or(0) as usize]))
-        };
-        nodes.push((i as u64 + 1, dc, rack));
-    }
-    let fixed_v = if r.bool() { Some(r.range(1, 8)) } else { None };
-    let style = r.below(4);
-    let mut used: HashMap<i64, Vec<Option<u64>>> = HashMap::new();
-    let mut ring = Vec::new();
-    for (id, dc, _) in &nodes {
-        let v = if r.chance(1, 25) { 0 } else { fixed_v.unwrap_or_else(|| r.range(1, 8)) };
-        for _ in 0..v {
-            for _attempt in 0..50 {
-                let tk: i64 = match style {
-                    0 => r.range(0, (n as u64) * 10) as i64 - (n as i64) * 5,
-                    1 => (r.range(0, (n as u64) * 12) as i64 - (n as i64) * 6) * 100,
-                    2 => match r.below(12) {
-                        0 => i64::MAX,
-                        1 => i64::MIN + 1,
-                        2 => i64::MAX - 1,
-                        _ => r.i64(),
-                    },
-                    _ => r.range(0, 40) as i64,
-                };
-                let tk = if tk == i64::MIN { i64::MAX } else { tk };
-                match used.get(&tk) {
-                    None => {}
-                    // the same token again only for a node of a different datacenter
-                    Some(dcs) if dup_tokens && !dcs.contains(dc) => {}
-                    Some(_) => continue,
-                }
-                used.entry(tk).or_default().push(*dc);
-                ring.push((tk, *id));
-                break;
-            }
-        }
-    }
-    Topo { nodes, ring }
-}
-
-fn ring_dcs(t: &Topo) -> Vec<u64> {
-    let mut s = BTreeSet::new();
-    for (_, id) in &t.ring {
-        if let Some(d) = t.nodes.iter().find(|n| n.0 == *id).unwrap().1 {
-            s.insert(d);
-        }
-    }
-    s.into_iter().collect()
-}
-fn nodes_in(t: &Topo, d: u64) -> u64 {
-    t.nodes.iter().filter(|n| n.1 == Some(d) && t.ring.iter().any(|e| e.1 == n.0)).count() as u64
-}
-
-fn gen_strat(r: &mut Rng, t: &Topo) -> Strat {
-    let n = t.nodes.len() as u64;
-    match r.below(20) {
-        0 => Strat::Local,
-        1 => Strat::Other,
-        2..=7 => Strat::Simple(if r.chance(1, 3) { r.range(0, n + 2) } else { r.range(0, 4.min(n + 2)) }),
-        _ => {
-            let mut m = Vec::new();
-            let mut dcs = ring_dcs(t);
-            // datacenters known to nodes but absent from the ring, and one nobody knows
-            for d in 0..3 {
-                if !dcs.contains(&d) && r.chance(1, 4) {
-                    dcs.push(d);
-                }
-            }
-            if r.chance(1, 5) {
-                dcs.push(ABSENT_DC);
-            }
-            r.shuffle(&mut dcs);
-            for d in dcs {
-                if r.chance(1, 6) {
-                    continue;
-                }
-                let k = nodes_in(t, d);
-                let rf = match r.below(8) {
-                    0 => 0,
-                    1 => k + r.range(0, 2),
-                    2 | 3 => r.range(0, k + 2),
-                    _ => r.range(1, 4),
-                };
-                m.push((d, rf));
-            }
-            Strat::Nts(m)
-        }
-    }
-}
-
-/// variations of a registered strategy: same shape, replication factors moved by one or more
-fn vary(r: &mut Rng, s: &Strat) -> Strat {
-    match s {
-        Strat::Simple(rf) => Strat::Simple(if r.bool() { rf + r.range(1, 2) } else { rf.saturating_sub(r.range(1, 2)) }),
-        Strat::Nts(m) => Strat::Nts(
-            m.iter()
-                .map(|(d, rf)| (*d, match r.below(3) { 0 => *rf, 1 => rf + r.range(1, 2), _ => rf.saturating_sub(r.range(1, 2)) }))
-                .collect(),
-        ),
-        o => o.clone(),
-    }
-}
-
-fn token_points(t: &Topo) -> Vec<i64> {
-    let mut s = BTreeSet::new();
-    for (tk, _) in &t.ring {
-        let tk = if *tk == i64::MIN { i64::MAX } else { *tk };
-        s.insert(tk);
-        s.insert(tk.saturating_sub(1).max(i64::MIN + 1));
-        s.insert(tk.saturating_add(1));
-    }
-    s.insert(i64::MIN + 1);
-    s.insert(i64::MAX);
-    s.insert(0);
-    s.into_iter().collect()
-}
-
 fn main() {
     let a = parse_args();
     quiet_panics();
@@ -387,7 +133,7 @@ fn main() {
     }
     let mut r = Rng::new(a.seed);
     let thorough = a.tier == "thorough";
-    let max_tokens = if thorough { 400 } else { 14 };
+    let max_tokens = if thorough { 120 } else { 10 };
     while out.lines < a.n {
         let dup = r.chance(1, 6);
         let topo = gen_topo(&mut r, dup);
